@@ -8,6 +8,7 @@ package main
 
 import (
 	"bufio"
+	"crypto/sha256"
 	"encoding/json"
 	"flag"
 	"fmt"
@@ -48,6 +49,25 @@ func main() {
 		cmdGendoc(os.Args[2:])
 	case "parse":
 		cmdParse(os.Args[2:])
+	case "storedebug":
+		w, err := NewWorld(nil)
+		must(err)
+		for _, k := range w.app.GetStoreKeys() {
+			func() {
+				defer func() { _ = recover() }()
+				st := w.base.MultiStore().GetKVStore(k)
+				it := st.Iterator(nil, nil)
+				defer it.Close()
+				h := sha256.New()
+				n := 0
+				for ; it.Valid(); it.Next() {
+					h.Write(it.Key())
+					h.Write(it.Value())
+					n++
+				}
+				fmt.Printf("%s %d %x\n", k.Name(), n, h.Sum(nil)[:6])
+			}()
+		}
 	case "rpcs":
 		cmdRpcs(os.Args[2:])
 	default:
@@ -64,8 +84,13 @@ func cmdRun(args []string) {
 	controls := fs.String("controls", "", "comma list of control runs: nopause,clean,noacts,nopt")
 	full := fs.Bool("fullreimport", false, "boot a full second chain on reimport")
 	digests := fs.Bool("digests", false, "log per-step determinism digests (C19)")
+	dflag := fs.Bool("diff", false, "differential of the middleware against the wrapped transfer app (C07)")
+	pobs := fs.Bool("parseobs", false, "log direct parser observations and constructor round trips (C15)")
 	must(fs.Parse(args))
 	fullReimport = *full
+	parseObs = *pobs
+	digestObs = *digests
+	diffObs = *dflag
 	if v := os.Getenv("VERIF_SEED"); v != "" {
 		if n, err := strconv.ParseInt(v, 10, 64); err == nil {
 			verifSeed = n
@@ -121,12 +146,6 @@ func cmdRun(args []string) {
 		w.seq = 0
 		for i, s := range b.Steps {
 			ln := r.step(bctx, b.B, i+1, s)
-			if *digests {
-				if ln.Obs.X == nil {
-					ln.Obs.X = map[string]any{}
-				}
-				ln.Obs.X["storeDigest"] = w.storeDigest(bctx)
-			}
 			must(enc.Encode(ln))
 			ns++
 		}
